@@ -990,7 +990,12 @@ Box<ITV>::relation_with(const Constraint& c) const {
             && Poly_Con_Relation::is_included();
         }
       case 1:
-        return Poly_Con_Relation::is_included();
+        if (c.is_equality()) {
+          return Poly_Con_Relation::is_disjoint();
+        }
+        else {
+          return Poly_Con_Relation::is_included();
+        }
       }
     }
     else {
